@@ -1068,6 +1068,8 @@ static double complex draw_term(int role)
 
 typedef struct calctx {
     int mt, p, n, cls, ci;
+    int vstd;			/* one standard is a vector parameter on its
+				   own grid of n points (other knots) */
     int k[KMAX];
     int nterms;
     ratfn_t rt[NTERMS_MAX];	/* cls = rat */
@@ -1189,16 +1191,51 @@ static int cal_build(calctx_t *c, int slot)
 	int nstd = 3 + vt_below(&rng, 2);
 	int extra = -1;
 	double complex gx = crand(0.8);
+	ratfn_t R;
 
-	if (nstd == 4)
+	if (c->vstd) {
+	    /*
+	     * fourth standard: a vector parameter given at as many points
+	     * as the calibration has frequencies, but on other knots that
+	     * cover the band; values from a low-order rational function,
+	     * the measurement from its true value at each calibration
+	     * frequency
+	     */
+	    int vk[KMAX], m;
+	    double vf[KMAX];
+	    double complex vy[KMAX];
+	    int d = deg_for(n);
+
+	    nstd = 4;
+	    m = grid_between(vk, n, c->k[0] > 6 ? c->k[0] - 1 -
+		    vt_below(&rng, 5) : 0, c->k[n - 1] + 1 + vt_below(&rng, 5));
+	    for (int i = 1; i + 1 < m; ++i) {
+		if (is_knot(c->k, n, vk[i]) && vk[i] + 1 < vk[i + 1])
+		    ++vk[i];
+	    }
+	    rat_draw_den(&R, d, 0.5 * (vk[0] + vk[m - 1]),
+		    (double)(vk[m - 1] - vk[0]));
+	    rat_draw_num(&R, crand(0.4), 0.4);
+	    for (int i = 0; i < m; ++i) {
+		vf[i] = F(vk[i]);
+		vy[i] = rat_eval(&R, (double)vk[i]);
+	    }
+	    extra = LIB(vnacal_make_vector_parameter(vcp, vf, m, vy));
+	    if (extra < 0)
+		goto out;
+	} else if (nstd == 4) {
 	    extra = LIB(vnacal_make_scalar_parameter(vcp, gx));
+	}
 	for (int s = 0; s < nstd; ++s) {
 	    double complex mv[KMAX];
 	    double complex *mp[1] = { mv };
 	    double complex S = s < 3 ? gamma[s] : gx;
 
-	    for (int i = 0; i < n; ++i)
+	    for (int i = 0; i < n; ++i) {
+		if (s == 3 && c->vstd)
+		    S = rat_eval(&R, (double)c->k[i]);
 		model_measure(model_at(c, c->k[i]), &S, &mv[i]);
+	    }
 	    if (LIB(vnacal_new_add_single_reflect_m(vnp, mp, 1, 1,
 			    s < 3 ? std[s] : extra, 1)) == -1)
 		goto out;
@@ -1265,8 +1302,8 @@ static void emit_calmake(calctx_t *c, int slot)
     vt_put("{\"e\":\"CalMake\",\"c\":%d,\"type\":\"%s\",\"p\":%d,", slot,
 	    mt_names[c->mt], c->p);
     put_ints("k", c->k, c->n);
-    vt_put(",\"cls\":\"%s\",\"ok\":%d,\"msg\":\"%s\"}", cls_name(c->cls), ok,
-	    ok ? "" : "setup failed");
+    vt_put(",\"cls\":\"%s\",\"vstd\":%d,\"ok\":%d,\"msg\":\"%s\"}",
+	    cls_name(c->cls), c->vstd, ok, ok ? "" : "setup failed");
     vt_end_line();
     if (!ok)
 	c->ci = -1;
@@ -1366,6 +1403,7 @@ static void ep_cal(uint64_t seed, int idx)
 	    c->cls = 0;
     }
     draw_knots(c->k, c->n, 10 * (2 + vt_below(&rng, 10)), vt_below(&rng, 2));
+    c->vstd = c->p == 1 && c->n >= 3 && vt_below(&rng, 2);
     cal_draw_model(c);
     emit_calmake(c, 0);
     if (c->ci < 0) {
@@ -1555,26 +1593,88 @@ out:
     return verdict;
 }
 
-#define LO_FACTOR (1.0 / 30.0)
-#define HI_FACTOR 100.0
+#define LO_FACTOR (1.0 / 6.0)
+#define HI_FACTOR 30.0
+
+/*
+ * samelen_points: n calibration points strictly inside the grid gk[0..n-1]
+ * (as many as the grid has knots), none of them a knot, clustered in the
+ * 30 % of the span next to the last knot (upper != 0) or the first knot.
+ * With steep linear data this is where "the i-th value for the i-th
+ * calibration frequency" differs most from the value on the line.
+ */
+static int samelen_points(int *cf, int n, const int *gk, int upper)
+{
+    int span = gk[n - 1] - gk[0];
+    int w = (3 * span) / 10;
+    int lo, hi;
+
+    if (w < n)
+	w = n;
+    if (upper) {
+	hi = gk[n - 1] - 1;
+	lo = hi - w;
+    } else {
+	lo = gk[0] + 1;
+	hi = lo + w;
+    }
+    for (int attempt = 0; attempt < 50; ++attempt) {
+	int m = grid_between(cf, n, lo + vt_below(&rng, 2), hi -
+		vt_below(&rng, 2)), clash = 0;
+
+	if (m != n)
+	    continue;
+	for (int i = 0; i < n; ++i)
+	    if (is_knot(gk, n, cf[i]) || cf[i] <= gk[0] || cf[i] >= gk[n - 1])
+		clash = 1;
+	if (!clash)
+	    return n;
+    }
+    return 0;
+}
 
 static void ep_noise(uint64_t seed, int idx)
 {
     probe_t pr;
     int which = idx % 2;		/* 0 noise floor, 1 tracking */
-    int cls = (idx / 2) % 3;		/* 0 lin, 1 knots, 2 const */
+    int cls = (idx / 2) % 4;	/* 0 lin, 1 knots, 2 const, 3 samelen */
     static const int gsizes[] = { 2, 2, 3, 5, 2, 4, 8 };
     int gn, gk[KMAX], ncf, cf[KMAX];
     double gs[KMAX], st[KMAX], lo[KMAX], pert[KMAX];
     int qual = 1, same = 1, tl, th[KMAX], rl[KMAX], rh[KMAX];
-    static const char *cls_names[] = { "lin", "knots", "const" };
+    static const char *cls_names[] = { "lin", "knots", "const", "samelen" };
 
     ep_begin("noise", seed, idx);
     probe_init(&pr);
-    gn = cls == 2 ? 1 : gsizes[(idx / 6) % 7];
+    gn = cls == 2 ? 1 : gsizes[(idx / 8) % 7];
+    if (cls == 3)
+	gn = 2 + (idx / 8) % 4;
     draw_knots(gk, gn, 10 * (2 + vt_below(&rng, 10)), 1);
     ncf = 1 + vt_below(&rng, 3);
-    if (cls == 0) {
+    if (cls == 3) {
+	/*
+	 * the noise grid has exactly as many knots as the calibration has
+	 * frequencies, but at other frequencies: steep linear data, the
+	 * calibration points clustered where sigma is large
+	 */
+	double s0 = urand(1.0e-6, 3.0e-6), s1 = urand(3.0e-4, 1.0e-3);
+	int upper = vt_below(&rng, 2);
+
+	if (!upper) {
+	    double t = s0;
+
+	    s0 = s1;
+	    s1 = t;
+	}
+	for (int i = 0; i < gn; ++i)
+	    gs[i] = s0 + (s1 - s0) * (double)(gk[i] - gk[0]) /
+		(double)(gk[gn - 1] - gk[0]);
+	ncf = samelen_points(cf, gn, gk, upper);
+	if (ncf == 0) {		/* cannot happen with coarse knots */
+	    ncf = 1;
+	    cf[0] = gk[0] + 1;
+	}
+    } else if (cls == 0) {
 	/* linear data with a steep slope; calibration points anywhere
 	 * inside the grid, preferably away from the first knot */
 	double s0 = urand(1.0e-6, 3.0e-6), s1 = urand(3.0e-4, 1.0e-3);
@@ -1727,25 +1827,67 @@ out:
 static void ep_sigma(uint64_t seed, int idx)
 {
     probe_t pr;
-    int cls = idx % 3;			/* 0 lin, 1 knots, 2 const */
+    int cls = idx % 4;		/* 0 lin, 1 knots, 2 const, 3 samelen */
     static const int gsizes[] = { 2, 2, 3, 5, 2, 4, 8 };
     int gn, gk[KMAX], ncf, cf[KMAX];
     double gs[KMAX], st[KMAX];
     double complex g_true, k_other, delta, pa[KMAX], pb[KMAX], pc[KMAX];
-    int h_other, qual = 1, same = 1;
-    static const char *cls_names[] = { "lin", "knots", "const" };
+    int h_other, qual = 1, same = 1, vother = 0;
+    static const char *cls_names[] = { "lin", "knots", "const", "samelen" };
 
     ep_begin("sigma", seed, idx);
     probe_init(&pr);
-    gn = cls == 2 ? 1 : gsizes[(idx / 3) % 7];
+    gn = cls == 2 ? 1 : gsizes[(idx / 4) % 7];
+    if (cls == 3)
+	gn = 2 + (idx / 4) % 4;
     draw_knots(gk, gn, 10 * (2 + vt_below(&rng, 10)), 1);
     ncf = 1 + vt_below(&rng, 3);
     g_true = cphase() * urand(0.5, 0.9);
     delta = cphase() * urand(0.1, 0.3);
     k_other = g_true + delta;
     vt_cb_reset();
-    h_other = LIB(vnacal_make_scalar_parameter(vcp, k_other));
-    if (cls == 0) {
+    if (cls == 3 && (idx / 16) % 2 == 1) {
+	/*
+	 * the parameter it is correlated with is a vector parameter with
+	 * the same number of points again, on a third grid (constant value)
+	 */
+	double ofv[KMAX];
+	double complex ov[KMAX];
+
+	for (int i = 0; i < gn; ++i) {
+	    int x = gk[i] + 3;
+
+	    if (i == 0)
+		x = gk[0] - 5;
+	    if (i == gn - 1)
+		x = gk[gn - 1] + 5;
+	    ofv[i] = F(x);
+	    ov[i] = k_other;
+	}
+	h_other = LIB(vnacal_make_vector_parameter(vcp, ofv, gn, ov));
+	vother = 1;
+    } else {
+	h_other = LIB(vnacal_make_scalar_parameter(vcp, k_other));
+    }
+    if (cls == 3) {
+	double s0 = urand(0.03, 0.08), s1 = urand(1.0, 2.5);
+	int upper = vt_below(&rng, 2);
+
+	if (!upper) {
+	    double t = s0;
+
+	    s0 = s1;
+	    s1 = t;
+	}
+	for (int i = 0; i < gn; ++i)
+	    gs[i] = s0 + (s1 - s0) * (double)(gk[i] - gk[0]) /
+		(double)(gk[gn - 1] - gk[0]);
+	ncf = samelen_points(cf, gn, gk, upper);
+	if (ncf == 0) {
+	    ncf = 1;
+	    cf[0] = gk[0] + 1;
+	}
+    } else if (cls == 0) {
 	double s0 = urand(0.03, 0.08), s1 = urand(1.0, 2.5);
 
 	if (vt_below(&rng, 2)) {
@@ -1809,7 +1951,7 @@ static void ep_sigma(uint64_t seed, int idx)
     put_ints("k", gk, gn);
     vt_put(",");
     put_ints("cf", cf, ncf);
-    vt_put(",\"qual\":%d,\"same\":%d}", qual, same);
+    vt_put(",\"vother\":%d,\"qual\":%d,\"same\":%d}", vother, qual, same);
     vt_end_line();
     ep_end();
 }
